@@ -75,6 +75,9 @@ T_Ev ==
                  /\ UNCHANGED <<rcvd, endSent, endRcvd, excused>>
             [] Cur.k = "endsent" ->
                  /\ endSent[p] = "none" /\ Cur.kind \in {"clean", "abort"} /\ Cur.at = sent[p]
+                 \* a run none of whose senders gives up (full-duplex schedules: the instance has Aborts = FALSE): a sender
+                 \* that records "abort" was cut by sozu - Peer_Close(p, "abort") is not an action of that instance
+                 /\ (Cur.kind = "abort" /\ Rec[hdr].no_aborts) => SozuCut
                  /\ endSent' = [endSent EXCEPT ![p] = Cur.kind]
                  /\ UNCHANGED <<sent, rcvd, endRcvd, excused>>
             [] Cur.k = "rcvd" ->
